@@ -91,9 +91,12 @@ Proof.
   - intros. apply held_same. reflexivity.
   - intros a b s0. unfold rename_box. destruct (lookup a (names s0)); [|apply held_ext_refl].
     destruct (a =? INBOX); apply held_same; reflexivity.
+  - intros. apply held_same. reflexivity.
+  - intros. apply held_same. reflexivity.
+  - intros i rc dl mk s0. apply held_same. unfold adopt_one. destruct (lookup i (boxes s0)); reflexivity.
   - intros s nm ro s0 _. unfold select_new. destruct (find_box (drop_sel s s0) nm) as [[i b]|];
       [|apply held_ext_refl].
-    destruct ro; cbn [fst].
+    destruct (ro || box_ro (drop_sel s s0) i); cbn [fst].
     + eexists. reflexivity.
     + eexists. cbn [held add_sel]. rewrite held_map_msgs. reflexivity.
 Qed.
@@ -136,7 +139,7 @@ Theorem examine_consumes_nothing st s nm ch :
   forall t, t <> s -> lookup t (sess st') = lookup t (sess st).
 Proof.
   cbn [step]. unfold select_new.
-  destruct (find_box (drop_sel s st) nm) as [[i b]|]; cbn [fst boxes held sess add_sel drop_sel set_sess].
+  destruct (find_box (drop_sel s st) nm) as [[i b]|]; cbn [orb fst boxes held sess add_sel drop_sel set_sess].
   - repeat split; [apply app_nil_r|]. intros t Ht. rewrite lookup_app, lookup_remove_neq by exact Ht.
     destruct (lookup t (sess st)); [reflexivity|]. cbn [lookup].
     destruct (N.eqb_spec s t); [congruence|reflexivity].
@@ -158,7 +161,7 @@ Proof.
 Qed.
 
 Theorem first_rw_select_claims st s nm ch i b :
-  find_box st nm = Some (i, b) ->
+  find_box st nm = Some (i, b) -> box_ro st i = false ->
   exists sl' b',
     snd (step st (Select s nm false) ch)
       = OSelect i false (nlen (b_msgs b)) (nlen (stored_recent b)) (b_max b + 1) /\
@@ -169,9 +172,10 @@ Theorem first_rw_select_claims st s nm ch i b :
     map m_uid (b_msgs b') = map m_uid (b_msgs b) /\
     forall m, In m (b_msgs b') -> m_recent m = false.
 Proof.
-  intro Hf. cbn [step]. unfold select_new.
+  intros Hf Hro. cbn [step]. unfold select_new.
   assert (Hf' : find_box (drop_sel s st) nm = Some (i, b)) by exact Hf.
-  rewrite Hf'. cbn [fst snd].
+  assert (Hro' : box_ro (drop_sel s st) i = false) by exact Hro.
+  rewrite Hf', Hro'. cbn [orb fst snd].
   pose proof (find_box_lookup _ _ _ _ Hf) as Hl.
   eexists. exists (mkBox (b_max b) (map clear_recent (b_msgs b)) (b_log b)).
   split; [reflexivity|]. split.
@@ -265,9 +269,16 @@ Proof.
   - intros a b s0. unfold rename_box. destruct (lookup a (names s0)); [|apply Rkeep_refl].
     destruct (a =? INBOX); [|apply Rkeep_same; reflexivity].
     intros x H. exists x. cbn [boxes]. rewrite lookup_app, H. split; [reflexivity|apply keeps_refl].
+  - intros. apply Rkeep_same. reflexivity.
+  - intros. apply Rkeep_same. reflexivity.
+  - intros j rc dl mk s0. unfold adopt_one. destruct (lookup j (boxes s0)) as [b|] eqn:Hl;
+      [|apply Rkeep_refl].
+    eapply Rkeep_replace; [exact Hl|]. split; cbn [b_max b_msgs]; [lia|].
+    intros m' Hm Hle. apply in_app_iff in Hm as [Hm|[<-|[]]]; [eauto|]. cbn [m_uid] in Hle. lia.
   - intros s nm ro s0 Hal. unfold select_new.
     destruct (find_box (drop_sel s s0) nm) as [[j b]|] eqn:Hf; [|apply Rkeep_refl].
-    destruct ro; cbn [fst]; [apply Rkeep_same; reflexivity|].
+    destruct (ro || box_ro (drop_sel s s0) j) eqn:Hor; cbn [fst]; [apply Rkeep_same; reflexivity|].
+    apply orb_false_iff in Hor as [-> _].
     cbn [not_rw_select_of] in Hal.
     assert (Hne : i <> j) by (intros ->; exact (Hal b Hf)).
     apply Rkeep_trans with (map_msgs j clear_recent (drop_sel s s0));
@@ -362,7 +373,7 @@ Theorem fetch_count_agrees st s ch st' p rows :
     (forall u r d m, In (u, r, d, m) rows -> r = mem u (s_recent sl')) /\
     nlen (filter (fun row => snd (fst (fst row))) rows) = s_ann sl'.
 Proof.
-  intros F. cbn [step]. destruct (resolve st s) as [| | |sl i b] eqn:R; try discriminate.
+  intros F. cbn [step]. destruct (resolve st s) as [| |sl i b] eqn:R; try discriminate.
   apply resolve_box in R as (Hl & Hf & ->).
   pose proof (full_do_sync st s sl b F Hl (find_box_In _ _ _ _ Hf)) as F1.
   unfold do_sync in *. unfold sync_sel in *. cbn [fst] in F1.
@@ -438,7 +449,7 @@ Qed.
 Theorem store_cannot_touch_recent st s set md fd fr ch :
   recent_data (fst (step st (Store s set md fd fr) ch)) = recent_data (fst (step st (Noop s) ch)).
 Proof.
-  cbn [step]. destruct (resolve st s) as [| | |sl i b]; try reflexivity.
+  cbn [step]. destruct (resolve st s) as [| |sl i b]; try reflexivity.
   destruct (do_sync s sl b st) as [st1 p]. cbn [fst].
   destruct (s_ro sl); cbn [fst]; [reflexivity|].
   apply recent_data_map_msgs. intro m. destruct (in_set set (m_uid m)); split; reflexivity.
